@@ -1,6 +1,7 @@
 package sfh
 
 import (
+	"bytes"
 	"fmt"
 	"strings"
 )
@@ -552,7 +553,91 @@ func genC18(f string) GenFn {
 	}
 }
 
+// asRT: turns the fault-free `enc` lines of an encoder generator into `rt` lines
+func asRT(g GenFn) GenFn {
+	return func(r *Rand, tier string, emit func(string)) {
+		g(r, tier, func(line string) {
+			f := strings.Fields(line)
+			if len(f) == 5 && f[0] == "enc" && f[3] == "-1" {
+				emit("rt " + f[1] + " " + f[2] + " " + f[4])
+			}
+		})
+	}
+}
+
+// asChunk: turns the fault-free `parse` lines of a parser generator into `chunk` lines
+// (W/R lines keep their chunking; whole-buffer lines of short documents get the 1-byte
+// chunking and every two-way cut)
+func asChunk(g GenFn) GenFn {
+	return func(r *Rand, tier string, emit func(string)) {
+		g(r, tier, func(line string) {
+			f := strings.Fields(line)
+			if len(f) != 5 || f[0] != "parse" || f[3] != "-1" {
+				return
+			}
+			switch f[2] {
+			case "W", "R":
+				emit("chunk " + f[1] + " " + f[2] + " " + f[4])
+			default:
+				doc := bytes.Join(Chunks(f[4]), nil)
+				if len(doc) < 2 || len(doc) > 48 {
+					return
+				}
+				var one [][]byte
+				for j := range doc {
+					one = append(one, doc[j:j+1])
+				}
+				emit("chunk " + f[1] + " W " + ChunksString(one))
+				// every two-way cut for a sample of the documents, two random cuts for the rest
+				if r.P(8) {
+					for c := 1; c < len(doc); c++ {
+						emit("chunk " + f[1] + " " + Pick(r, []string{"W", "R"}) + " " + ChunksString([][]byte{doc[:c], doc[c:]}))
+					}
+				} else {
+					for k := 0; k < 2; k++ {
+						c := 1 + r.Intn(len(doc)-1)
+						emit("chunk " + f[1] + " " + Pick(r, []string{"W", "R"}) + " " + ChunksString([][]byte{doc[:c], doc[c:]}))
+					}
+				}
+			}
+		})
+	}
+}
+
+// onlyOp keeps the lines of the given op
+func onlyOp(op string, g GenFn) GenFn {
+	return func(r *Rand, tier string, emit func(string)) {
+		g(r, tier, func(line string) {
+			if strings.HasPrefix(line, op+" ") {
+				emit(line)
+			}
+		})
+	}
+}
+
 func init() {
+	// targeted generators written with the mirrors (gen_json.go, gen_ubj.go)
+	for _, g := range []GenFn{genJsonParseStrings, genJsonParseNumbers, genJsonParseStruct, genJsonShort, genJsonFloatSyntax} {
+		RegisterGen("C04", onlyOp("parse", g))
+		RegisterGen("C03", onlyOp("parse", g))
+		RegisterGen("C02", asChunk(g))
+		RegisterGen("C09", onlyOp("parse", g))
+	}
+	for _, g := range []GenFn{genUbjParseTargeted(), genUbjBigDoc()} {
+		RegisterGen("C06", onlyOp("parse", g))
+		RegisterGen("C03", onlyOp("parse", g))
+		RegisterGen("C02", asChunk(g))
+		RegisterGen("C09", onlyOp("parse", g))
+	}
+	for _, g := range []GenFn{genJsonEncStrings, genJsonEncFloats, genUbjEncTargeted()} {
+		RegisterGen("C07", onlyOp("enc", g))
+		RegisterGen("C01", asRT(g))
+		RegisterGen("C16", onlyOp("enc", g))
+	}
+	RegisterGen("C18", onlyOp("dec", genJsonDecTargets))
+	for _, f := range []string{"cbor", "ubj", "json"} {
+		RegisterGen("C01", asRT(genExtEvents(f, false)))
+	}
 	RegisterGen("C01", forFormats(genC01))
 	RegisterGen("C02", forFormats(genC02))
 	RegisterGen("C03", forFormats(genC03))
